@@ -158,6 +158,16 @@ Theorem C08_lowrank_never_degenerates :
 Proof. exact lr_history_ok. Qed.
 Print Assumptions C08_lowrank_never_degenerates.
 
+(* the whole life of a low-rank transformation: from its first initialisation (update_from_grad at
+   the first point; again after every set_position) on, for ANY sequence of re-initialisations and
+   adaptation calls with any gradients, windows and pipeline results, the scales in use are finite
+   and strictly positive *)
+Theorem C08_lowrank_lifetime_never_degenerates :
+  forall (st0 : lrm) (pos grad : list f64) (evs : list lr_event),
+    lrm_ok (fold_left lr_step evs (lr_update_from_grad st0 pos grad)).
+Proof. exact lr_lifetime_ok. Qed.
+Print Assumptions C08_lowrank_lifetime_never_degenerates.
+
 (* the finite gate as it was before the repair is refuted: a zero eigenvalue (returned by the
    SPD-mean pipeline for singular windows with gamma = 1e-10, witness in KNOWN_FINDINGS.json)
    or a zero scale passed it and left an infinite inverse scale in use; the repaired gate
